@@ -33,7 +33,7 @@ import wgslgen
 #   agg_params=False          helper parameters are scalars or pointers
 #                             (inliner: aliased aggregate Load arguments, diff:inline:hand/aggregate_arg_then_store)
 GENERAL = dict(helper_ret_nested=False, loop_calls="nolocals", agg_params=False, n_helpers=3,
-               switch_multi=True, switch_calls=True, small_helpers=True)
+               switch_multi=True, switch_calls=True, small_helpers=True, n_stmts=6)
 # the DXIL optimisation stages (sroa, mem2reg, dce) additionally get loop-free programs without struct types:
 #   loops=False               (mem2reg phase A inside loop bodies, diff:stage:mem2reg:hand/loop_carried_local_only_in_body)
 #   structs=False             (sroa: Compose without Type / whole-struct Compose store, diff:stage:sroa:*)
